@@ -131,16 +131,21 @@ class Ctx:
             return [None] * len(cases), impl
         m = vlib.run_model(cases)
         i = vlib.run_impl(cases, **(impl_kw or {}))
-        nd = 0
+        nd = drift = 0
         for c, mo, io in zip(cases, m, i):
             a, b_ = (project(c, mo), project(c, io)) if project else (mo, io)
             if a != b_:
                 nd += 1
                 if len(self.disagreements) < 20:
-                    self.disagreements.append({"case": c, "model": mo[:2000], "impl": io[:2000], "label": label})
+                    self.disagreements.append({"case": c, "model": mo[:2000], "impl": io[:2000], "label": label,
+                                               "projected_model": str(a)[:500], "projected_impl": str(b_)[:500]})
+            elif mo != io:
+                drift += 1      # raw outputs differ but not in what this property observes: reported, not a violation
         self.corr_stats["cases"] += len(cases)
         self.corr_stats["disagreements"] += nd
-        self.corr_stats.setdefault("by_label", {})[label] = {"cases": len(cases), "disagreements": nd}
+        self.corr_stats["raw_output_drift"] = self.corr_stats.get("raw_output_drift", 0) + drift
+        self.corr_stats.setdefault("by_label", {})[label] = {"cases": len(cases), "disagreements": nd, "raw_output_drift": drift,
+                                                             "projection": (project.__doc__ or project.__name__) if project else "identity (full output)"}
         return m, i
 
     def fail(self, what, case, observed, expected=None, label=""):
